@@ -97,7 +97,7 @@ SUITES["probe"] = dict(
 
 SUITES["stall"] = dict(
     test="TestStall", coq_module="Cases.ProbeCase", case_type="st_case", eval="eval_st_case", needs_binary=True,
-    cols=["diff", "mon_c03_stall_ends", "mon_c03_stall_followup", "nt_c03"],
+    cols=["diff", "mon_c03_stall_ends", "mon_c03_stall_followup", "nt_c03", "mon_c11_readd"],
     batches={"quick": 1, "thorough": 2}, timeout={"quick": 120, "thorough": 300},
 )
 
@@ -281,7 +281,9 @@ PROPS["C11"] = dict(
                  classifiers={}, nontrivial="nt_c11"),
             dict(suite="admin", corr=["diff"], monitors=["mon_c11_admin"], classifiers={}, nontrivial="nt_c10"),
             dict(suite="sched", corr=["diff_obs", "diff_trace"], monitors=["mon_sched_prop", "mon_sched_finished"], classifiers={},
-                 nontrivial="nt_sched", filter=lambda c: c["repl"].get("scenario") == 3)],
+                 nontrivial="nt_sched", filter=lambda c: c["repl"].get("scenario") in (3, 5)),
+            # a name removed and added again at another address, on the real binary through the admin API
+            dict(suite="stall", corr=[], monitors=["mon_c11_readd"], classifiers={}, nontrivial="mon_c11_readd", filter=lambda c: c["repl"].get("kind") == "readd")],
     rule="balancer histories with add (valid / unparsable address / duplicate name / weight 0..4), remove (present / absent names), "
          "set_strategy (5 valid + invalid names) interleaved with requests in flight, List before and after every admin operation; "
          "non-trivial = an admin op fails, repeats a name, removes an absent name or overlaps traffic; distinct = by case hash",
